@@ -68,7 +68,9 @@ CHECKS["C20"] = dict(
           "fl (so in the source's operation order): |smoothed_fl - smoothed| <= 4 u max|v| / alpha (0<alpha<=1, 16u<=alpha), "
           "|mean_fl - mean| <= 6 n u max|v| (n u <= 1/100), all results bounded (mean, smoothed value, sum of squares, variance), and "
           "each exact sum-of-squares increment is N/(N+1) (v-mean)^2 >= 0. The relative variance bound c n u kappa is NOT proved; it is "
-          "only searched for counterexamples. Tie: generated kernels run in binary64 agree bit for bit with the Python classes."),
+          "only searched for counterexamples. Tie: generated kernels run in binary64 agree bit for bit with the Python classes. 'All results are "
+          "finite': every read-out of real float explainers (importance values, variances, both normalised views, confidence bounds, SAGE losses) "
+          "is queried after every call for 1-3 features, linear and input-ignoring models, offsets 0 and 1e6."),
     design_ref="DESIGN.md section 6, C20",
     note=("Trusted: Lean kernel; standard axioms; py2lean fl-variant (validated bit-for-bit each run); IEEE-754 binary64 satisfies the "
           "standard model absent overflow/underflow; exact/90-digit references in the oracle."),
@@ -166,7 +168,7 @@ CHECKS["C13"] = dict(
           "through any number of adapters sharing the metric returns for each pair the (sign-adjusted) value of a fresh metric after that "
           "single pair and leaves the metric fresh; the validator probe leaves it fresh; the hypothesis is proved for running-mean metrics. "
           "River's metric classes themselves are outside /repo: the hypothesis and the property are MONITORED on every metric class the "
-          "installed river offers that validate_loss_function accepts (41), with interleaved shared histories. Additionally (soft tie) RiverMetricToLossFunction.__call__ is translated statement by statement on every run, once per value of dict_input_metric, and Props/GenRiverLoss.lean proves both specialisations equal to the model's lossCall."),
+          "installed river offers that validate_loss_function accepts (41) and on four user-defined metrics (dict / single-value input x bigger / smaller is better), with interleaved shared histories. Additionally (soft tie) RiverMetricToLossFunction.__call__ is translated statement by statement on every run, once per value of dict_input_metric, and Props/GenRiverLoss.lean proves both specialisations equal to the model's lossCall."),
     design_ref="DESIGN.md section 6, C13", note=TRUST_H + " river metrics' update/revert/get behaviour is monitored, not proved.",
     technique="Lean 4 theorems over abstract metric + monitored hypothesis on all accepted river metrics",
 )
@@ -185,7 +187,9 @@ CHECKS["C16"] = dict(
     text=("28 Lean theorems: the confidence-bound expression regenerated from base.py IS the modelled one; normalisation keeps keys and ratios, sums to one ('sum'), has range one ('delta'), is all zero for a zero "
           "normaliser; confidence bound = (1-a)^t + sqrt(var a/((2-a) delta)), non-negative, positive when a<1 or var>0, antitone in delta "
           "(genuine square root; instantiated for Real.sqrt); tracked variances are >= 0 in every reachable PFI/SAGE state (static, or "
-          "0<=alpha<=1). 'Never NaN or infinite whatever numeric type' is decided by a numeric-type sweep on the real code."),
+          "0<=alpha<=1). 'Never NaN or infinite whatever numeric type' is decided by a numeric-type sweep on the real code. The empty "
+          "importance dictionary (the state before the first estimate) is covered: generated_empty, and shipped_delta_raises_on_empty for the form repaired by fix 7374397; "
+          "normalised views are queried on real explainers from before the first call on."),
     design_ref="DESIGN.md section 6, C16", note=TRUST_H + " math.sqrt is a genuine square root.",
     technique="Lean 4 theorems over hand model + differential correspondence + numeric-type sweep",
 )
@@ -208,7 +212,8 @@ CHECKS["C04"] = dict(
           "with w the expected loss under the imputer; averaged over the d! orders it is the Shapley value of that game, in permutation "
           "form AND subset-weight form; same for the product strategy and for BatchSage's original mode (rows from the whole data set). "
           "Tie: the real code's exact expected update, obtained by enumerating every outcome of every draw it makes (weights = 1/requested "
-          "range), equals an independent brute force of those quantities for d<=3, m<=3, n<=2."),
+          "range), equals an independent brute force of those quantities for d<=3, m<=3, n<=2; original mode is also called with other rows "
+          "already collected in the explainer's storage (the background rows must still come from the data set handed in)."),
     design_ref="DESIGN.md section 6, C04", note=TRUST_H + " Uniformity and independence of np.random.permutation / random.randrange / randint are library contracts.",
     technique="Lean 4 finite-probability theorems + exhaustive draw enumeration on the real classes",
 )
